@@ -60,7 +60,8 @@ def assert_call(sig: str, rnd: random.Random):
             c, n = enc_string(0x40, msg)
             code += c
             size = 4 + 0x40 + n
-        meta["domain"] = [0, 1]
+        # (the operand is a word: every non-zero word is true, as for vm.assume and JUMPI)
+        meta["domain"] = [0, 1, 2, 0x100, 0xFF00, 2**255, M256 - 1]
         return code + call_cheat(HEVM, size), meta
     if not d["arr"] and d["typ"] not in ("bytes", "string"):
         code += mstore_in(BUF + 4, 0) + mstore_in(BUF + 36, 1)
